@@ -83,9 +83,9 @@ def enumKey (names : List Path) (s : Path) : Option Nat :=
   if i < names.length then some i else none
 
 /-- What the port's callback stores for one argument; `none`: the argument type does not
-    match the port's argument specification (the message matches nothing), or — for an
-    option — the symbol is not one of the port's (the unchanged code then stores
-    `INT_MIN`; excluded from the property's inputs). -/
+    match the port's argument specification (the message matches nothing).  For an option,
+    a symbol that is not one of the port's is stored as `INT_MIN` (`enum_key` returns it and
+    `rOptionCb` applies it unchecked). -/
 def store : Kind → Val → Option Val
   | .int mn mx, .int i => some (.int (clampInt mn mx i))
   | .chr, .chr c => some (.chr (clampInt (some 0) (some 127) (narrowChar c)))
@@ -94,7 +94,7 @@ def store : Kind → Val → Option Val
   | .tog, .bool b => some (.bool b)
   | .opt _, .int i => some (.int i)
   | .opt _, .chr c => some (.int c)
-  | .opt names, .sym s => (enumKey names s).map fun k => .int k
+  | .opt names, .sym s => some (match enumKey names s with | some k => .int k | none => .int (-2147483648))
   | .str len, .str bs => some (.str (bs.take (len - 1)))
   | _, _ => none
 
@@ -186,8 +186,10 @@ structure App where
   params : List Param
   /-- `walk_ports` order of the ports that `get_changed_values` considers -/
   walk : List Item
-  /-- `Ports::apropos` followed by `meta()[…]` for the three dependency keys;
-      the argument is the path exactly as `scan_deps` passes it -/
+  /-- the port lookup of `scan_deps` followed by `meta()[…]` for the three dependency keys; the
+      argument is the path exactly as `scan_deps` passes it: `<parent>/` for a parent level
+      (looked up with `Ports::apropos`), the path of a line or of a dependency otherwise
+      (`port_of_path`, fixes/C13-scan-deps-exact-port) -/
   apropos : Path → Option DepMeta
 
 namespace App
